@@ -259,6 +259,12 @@ func (e *kvElection) attemptAcquireWithRetry(ctx context.Context) {
 		default:
 		}
 
+		// Another acquisition attempt of this instance (watch event, periodic check)
+		// may have won in the meantime: a leader has nothing left to acquire.
+		if e.IsLeader() {
+			return
+		}
+
 		err := e.attemptAcquire()
 		if err == nil {
 			return
@@ -275,6 +281,11 @@ func (e *kvElection) attemptAcquireWithRetry(ctx context.Context) {
 					zap.Error(err),
 				)...,
 			)
+			// Never demote a leader from here: the attempts above fail against
+			// this instance's own record once a concurrent attempt has won.
+			if e.IsLeader() {
+				return
+			}
 			e.becomeFollower()
 			return
 		}
